@@ -351,6 +351,32 @@ pub fn set_status(w: &World, p: u8, suspended_or_revoked: u8) -> Result<(), Stri
     kerr(w.env.run(w.env.nexus.governance().set_principal_status(&principal_id(p), st, SYSTEM_PRINCIPAL)), "set_principal_status").map(|_| ())
 }
 
+/// How principal `p` holds the Space itself (host control plane: the Space
+/// row's `owner_principal` / `owners` members written with `put_space`):
+/// 0 = not at all, 1 = co-owner (a member of `owners`), 2 = founding owner
+/// (`owner_principal`). The engine's own principal always stays an owner, so
+/// the owner script keeps working.
+pub fn set_ownership(w: &World, p: u8, how: u8) -> Result<(), String> {
+    let pid = principal_id(p);
+    let mut space = kerr(w.env.run(w.env.nexus.store.get_space(DEFAULT_SPACE)), "get_space")?;
+    space.owners.retain(|o| *o != pid);
+    if space.owner_principal == pid {
+        space.owner_principal = SYSTEM_PRINCIPAL.to_string();
+    }
+    if !space.owners.iter().any(|o| o == SYSTEM_PRINCIPAL) {
+        space.owners.insert(0, SYSTEM_PRINCIPAL.to_string());
+    }
+    match how {
+        0 => {}
+        1 => space.owners.push(pid),
+        _ => {
+            space.owner_principal = pid.clone();
+            space.owners.insert(0, pid);
+        }
+    }
+    kerr(w.env.run(w.env.nexus.store.put_space(&space)), "put_space")
+}
+
 #[allow(clippy::too_many_arguments)]
 pub fn create_delegation_raw(w: &World, from: u8, to: u8, actions: Vec<String>, scope: AuthorityScope, conditions: AuthorityConditions, constraints: AuthorityConstraints, parent: Option<u64>, may_redelegate: bool) -> Result<u64, String> {
     let row = kerr(
